@@ -49,6 +49,10 @@ func commit(rootGoitPath string, index *store.Index, head *store.Head, conf *sto
 	committer := author
 	if err != nil {
 		// no branch means that this is the initial commit
+		// other errors must not make the commit lose its parent
+		if !os.IsNotExist(err) {
+			return fmt.Errorf("%w: %s", ErrIOHandling, branchPath)
+		}
 		data = []byte(fmt.Sprintf("tree %s\nauthor %s\ncommitter %s\n\n%s\n", treeObject.Hash, author, committer, message))
 	} else {
 		parentHash := string(branchBytes)
